@@ -75,6 +75,35 @@ def classify(A, rec, directed):
         rec.nontrivial(True)
 
 
+class Plan:
+    """Comparisons are collected first and executed in an order that is a
+    pure function of the case (different for different cases): a measure
+    that disturbs shared cached state (path lengths ...) then precedes its
+    victims in a share of the cases instead of always coming last."""
+
+    def __init__(self, rec, case):
+        from vp.pbt import case_hash
+        self.rec = rec
+        self.items = []
+        self.key = int(case_hash(case)[:8], 16)
+
+    def cmp(self, net, name, ref, clause=None, args=(), kw=None, rtol=1e-9,
+            atol=0.0, allowed=()):
+        self.items.append((net, name, ref, clause, args, kw, rtol, atol,
+                           allowed))
+
+    def run(self):
+        n = len(self.items)
+        order = sorted(range(n), key=lambda i: (self.key * (2 * i + 1)
+                                                + 7919 * i) % 1000003)
+        for i in order:
+            net, name, ref, clause, args, kw, rtol, atol, allowed = \
+                self.items[i]
+            _cmp(self.rec, net, name, ref, clause, args, kw, rtol, atol,
+                 allowed)
+        self.items = []
+
+
 def _cmp(rec, net, name, ref, clause=None, args=(), kw=None, rtol=1e-9,
          atol=0.0, allowed=()):
     ok, val = rec.call((clause or name) + "_raises", getattr(net, name),
@@ -97,130 +126,132 @@ def oracle_basic(case, rec):
         return
     net, A = res
     classify(A, rec, directed)
+    plan = Plan(rec, case)
     sfx = "_dir" if directed else ""
     U = R.sym(A)
     w = np.array(case["w"], dtype=float) if case.get("w") else np.ones(n)
 
     # --- degrees and strengths
-    _cmp(rec, net, "degree", R.degree(A, directed), "degree" + sfx)
-    _cmp(rec, net, "indegree", R.indegree(A), "indegree" + sfx)
-    _cmp(rec, net, "outdegree", R.outdegree(A), "outdegree" + sfx)
-    _cmp(rec, net, "bildegree", R.bildegree(A), "bildegree" + sfx)
+    plan.cmp(net, "degree", R.degree(A, directed), "degree" + sfx)
+    plan.cmp(net, "indegree", R.indegree(A), "indegree" + sfx)
+    plan.cmp(net, "outdegree", R.outdegree(A), "outdegree" + sfx)
+    plan.cmp(net, "bildegree", R.bildegree(A), "bildegree" + sfx)
     if case.get("W") is not None:
         W = np.array(case["W"], dtype=float)
         si, so, sb = R.strengths(A, W)
-        _cmp(rec, net, "indegree", si, "instrength" + sfx, args=("len",))
-        _cmp(rec, net, "outdegree", so, "outstrength" + sfx, args=("len",))
-        _cmp(rec, net, "degree", si + so if directed else so,
+        plan.cmp(net, "indegree", si, "instrength" + sfx, args=("len",))
+        plan.cmp(net, "outdegree", so, "outstrength" + sfx, args=("len",))
+        plan.cmp(net, "degree", si + so if directed else so,
              "strength" + sfx, args=("len",))
-        _cmp(rec, net, "bildegree", sb, "bilstrength" + sfx, args=("len",))
-        _cmp(rec, net, "link_attribute", W * (A != 0), "link_attribute",
+        plan.cmp(net, "bildegree", sb, "bilstrength" + sfx, args=("len",))
+        plan.cmp(net, "link_attribute", W * (A != 0), "link_attribute",
              args=("len",))
     # --- laplacians
-    _cmp(rec, net, "laplacian", R.laplacian(A, directed, "out"),
+    plan.cmp(net, "laplacian", R.laplacian(A, directed, "out"),
          "laplacian_out" + sfx, kw={"direction": "out"})
     if directed:
-        _cmp(rec, net, "laplacian", R.laplacian(A, True, "in"),
+        plan.cmp(net, "laplacian", R.laplacian(A, True, "in"),
              "laplacian_in_dir", kw={"direction": "in"})
     # --- clustering family (symmetrised graph for directed input)
-    _cmp(rec, net, "local_clustering", R.local_clustering(A),
+    plan.cmp(net, "local_clustering", R.local_clustering(A),
          "local_clustering" + sfx)
-    _cmp(rec, net, "global_clustering", R.local_clustering(A).mean(),
+    plan.cmp(net, "global_clustering", R.local_clustering(A).mean(),
          "global_clustering" + sfx)
-    _cmp(rec, net, "transitivity", R.transitivity(A), "transitivity" + sfx)
+    plan.cmp(net, "transitivity", R.transitivity(A), "transitivity" + sfx)
     for kind in ("cycle", "mid", "in", "out"):
-        _cmp(rec, net, "local_%smotif_clustering" % kind,
+        plan.cmp(net, "local_%smotif_clustering" % kind,
              R.motif_clustering(A, kind), "%smotif%s" % (kind, sfx))
         if case.get("W") is not None and n <= 14:
-            _cmp(rec, net, "local_%smotif_clustering" % kind,
+            plan.cmp(net, "local_%smotif_clustering" % kind,
                  R.motif_clustering(A, kind, case["W"]),
                  "%smotif_weighted%s" % (kind, sfx), kw={"key": "len"})
     # --- shortest paths
     D = R.path_lengths(A)
-    _cmp(rec, net, "path_lengths", D, "path_lengths" + sfx)
-    _cmp(rec, net, "average_path_length", R.average_path_length(D),
+    plan.cmp(net, "path_lengths", D, "path_lengths" + sfx)
+    plan.cmp(net, "average_path_length", R.average_path_length(D),
          "average_path_length" + sfx)
-    _cmp(rec, net, "diameter", R.diameter(D), "diameter" + sfx)
-    _cmp(rec, net, "global_efficiency", R.global_efficiency(D),
+    plan.cmp(net, "diameter", R.diameter(D), "diameter" + sfx)
+    plan.cmp(net, "global_efficiency", R.global_efficiency(D),
          "global_efficiency" + sfx)
     if case.get("W") is not None:
         DW = R.path_lengths(A, case["W"])
-        _cmp(rec, net, "path_lengths", DW, "path_lengths_weighted" + sfx,
+        plan.cmp(net, "path_lengths", DW, "path_lengths_weighted" + sfx,
              args=("len",))
         if np.isfinite(DW).sum() > n:
-            _cmp(rec, net, "average_path_length", R.average_path_length(DW),
+            plan.cmp(net, "average_path_length", R.average_path_length(DW),
                  "average_path_length_weighted" + sfx, args=("len",))
-        _cmp(rec, net, "global_efficiency", R.global_efficiency(DW),
+        plan.cmp(net, "global_efficiency", R.global_efficiency(DW),
              "global_efficiency_weighted" + sfx, args=("len",))
         if np.isfinite(DW).all():
-            _cmp(rec, net, "closeness", R.closeness_connected(DW),
+            plan.cmp(net, "closeness", R.closeness_connected(DW),
                  "closeness_weighted" + sfx, args=("len",))
     # --- betweenness
-    _cmp(rec, net, "betweenness", R.betweenness(A, directed),
+    plan.cmp(net, "betweenness", R.betweenness(A, directed),
          "betweenness" + sfx)
 
     if directed:
         # "Does not respect directionality of links": the value on the simple
         # undirected graph A or A^T, reciprocated links counted as one link
         if n <= 14:
-            _cmp(rec, net, "link_betweenness", R.link_betweenness(A),
+            plan.cmp(net, "link_betweenness", R.link_betweenness(A),
                  "link_betweenness_dir")
         # n.s.i. degrees for directed graphs
-        _cmp(rec, net, "nsi_indegree", R.nsi_indegree(A, w), "nsi_indegree")
-        _cmp(rec, net, "nsi_outdegree", R.nsi_outdegree(A, w),
+        plan.cmp(net, "nsi_indegree", R.nsi_indegree(A, w), "nsi_indegree")
+        plan.cmp(net, "nsi_outdegree", R.nsi_outdegree(A, w),
              "nsi_outdegree")
-        _cmp(rec, net, "nsi_degree", R.nsi_degree(A, w, True),
-             "nsi_degree_dir")
+        plan.cmp(net, "nsi_degree", R.nsi_degree(A, w, True),
+                 "nsi_degree_dir")
+        plan.run()
         return
 
     # ------------------------- undirected only from here -----------------
     connected = np.isfinite(D).all()
     k = U.sum(axis=1)
     if connected:
-        _cmp(rec, net, "closeness", R.closeness_connected(D), "closeness")
+        plan.cmp(net, "closeness", R.closeness_connected(D), "closeness")
     mi = R.matching_index(A)
     ok, val = rec.call("matching_index_raises", net.matching_index)
     if ok:
         m = ~np.isnan(mi)
         rec.close(np.asarray(val)[m], mi[m], "matching_index")
-    _cmp(rec, net, "coreness", R.coreness(A), "coreness")
+    plan.cmp(net, "coreness", R.coreness(A), "coreness")
     ra = R.assortativity(A)
     if not np.isnan(ra):
-        _cmp(rec, net, "assortativity", ra, "assortativity", rtol=1e-8)
+        plan.cmp(net, "assortativity", ra, "assortativity", rtol=1e-8)
     if (k > 0).all():
-        _cmp(rec, net, "average_neighbors_degree", (U @ k) / k,
+        plan.cmp(net, "average_neighbors_degree", (U @ k) / k,
              "average_neighbors_degree")
-    _cmp(rec, net, "max_neighbors_degree", (U * k[None, :]).max(axis=1),
+    plan.cmp(net, "max_neighbors_degree", (U * k[None, :]).max(axis=1),
          "max_neighbors_degree")
     # interregional betweenness for generated source / target sets
     src = sorted({s % n for s in case.get("src") or [0]})
     tgt = sorted({t % n for t in case.get("tgt") or [n - 1]})
-    _cmp(rec, net, "interregional_betweenness",
+    plan.cmp(net, "interregional_betweenness",
          R.interregional_betweenness(A, src, tgt),
          "interregional_betweenness", kw={"sources": src, "targets": tgt})
-    _cmp(rec, net, "interregional_betweenness", 2 * R.betweenness(A, False),
+    plan.cmp(net, "interregional_betweenness", 2 * R.betweenness(A, False),
          "interregional_all_equals_twice_betweenness")
     # --- n.s.i. measures from their docstring formulas, general weights
-    _cmp(rec, net, "nsi_degree", R.nsi_degree(A, w), "nsi_degree")
-    _cmp(rec, net, "nsi_local_clustering", R.nsi_local_clustering(A, w),
+    plan.cmp(net, "nsi_degree", R.nsi_degree(A, w), "nsi_degree")
+    plan.cmp(net, "nsi_local_clustering", R.nsi_local_clustering(A, w),
          "nsi_local_clustering")
-    _cmp(rec, net, "nsi_global_clustering",
+    plan.cmp(net, "nsi_global_clustering",
          R.nsi_local_clustering(A, w) @ w / w.sum(), "nsi_global_clustering")
-    _cmp(rec, net, "nsi_average_path_length",
+    plan.cmp(net, "nsi_average_path_length",
          R.nsi_average_path_length(A, w), "nsi_average_path_length")
-    _cmp(rec, net, "nsi_closeness", R.nsi_closeness(A, w), "nsi_closeness")
-    _cmp(rec, net, "nsi_harmonic_closeness", R.nsi_harmonic_closeness(A, w),
+    plan.cmp(net, "nsi_closeness", R.nsi_closeness(A, w), "nsi_closeness")
+    plan.cmp(net, "nsi_harmonic_closeness", R.nsi_harmonic_closeness(A, w),
          "nsi_harmonic_closeness")
-    _cmp(rec, net, "nsi_exponential_closeness",
+    plan.cmp(net, "nsi_exponential_closeness",
          R.nsi_exponential_closeness(A, w), "nsi_exponential_closeness")
-    _cmp(rec, net, "nsi_global_efficiency", R.nsi_global_efficiency(A, w),
+    plan.cmp(net, "nsi_global_efficiency", R.nsi_global_efficiency(A, w),
          "nsi_global_efficiency")
     # --- unit weights: documented relations to the unweighted measures
     ok, res = rec.call("construct_unit", make, case, False)
     if ok:
         unit, _ = res
-        _cmp(rec, unit, "nsi_degree", k + 1, "unit_nsi_degree_is_k_plus_1")
-        _cmp(rec, unit, "nsi_degree", k, "unit_corrected_nsi_degree_is_k",
+        plan.cmp(unit, "nsi_degree", k + 1, "unit_nsi_degree_is_k_plus_1")
+        plan.cmp(unit, "nsi_degree", k, "unit_corrected_nsi_degree_is_k",
              kw={"typical_weight": 1.0})
         ok2, c = rec.call("unit_corrected_nsi_local_clustering_raises",
                           unit.nsi_local_clustering, typical_weight=1.0)
@@ -228,6 +259,7 @@ def oracle_basic(case, rec):
             m = k >= 2
             rec.close(np.asarray(c)[m], R.local_clustering(A)[m],
                       "unit_corrected_nsi_local_clustering")
+    plan.run()
 
 
 def oracle_heavy(case, rec):
@@ -241,47 +273,49 @@ def oracle_heavy(case, rec):
         return
     net, A = res
     classify(A, rec, False)
+    plan = Plan(rec, case)
     U = R.sym(A)
     k = U.sum(axis=1)
     D = R.path_lengths(A)
     connected = bool(np.isfinite(D).all())
-    _cmp(rec, net, "local_cliquishness", R.local_clustering(A),
+    plan.cmp(net, "local_cliquishness", R.local_clustering(A),
          "cliquishness3", args=(3,))
-    _cmp(rec, net, "local_cliquishness", R.local_cliquishness(A, 4),
+    plan.cmp(net, "local_cliquishness", R.local_cliquishness(A, 4),
          "cliquishness4", args=(4,))
-    _cmp(rec, net, "local_cliquishness", R.local_cliquishness(A, 5),
+    plan.cmp(net, "local_cliquishness", R.local_cliquishness(A, 5),
          "cliquishness5", args=(5,))
     if n <= 16:
-        _cmp(rec, net, "higher_order_transitivity",
+        plan.cmp(net, "higher_order_transitivity",
              R.higher_order_transitivity4(A), "higher_order_transitivity4",
              args=(4,))
-    _cmp(rec, net, "link_betweenness", R.link_betweenness(A),
+    plan.cmp(net, "link_betweenness", R.link_betweenness(A),
          "link_betweenness")
-    _cmp(rec, net, "edge_betweenness", R.link_betweenness(A),
+    plan.cmp(net, "edge_betweenness", R.link_betweenness(A),
          "edge_betweenness")
     if U.sum() and n >= 3 and n <= 14:
         # vulnerability needs a non-zero efficiency and node-deleted graphs
-        _cmp(rec, net, "local_vulnerability", R.local_vulnerability(A),
+        plan.cmp(net, "local_vulnerability", R.local_vulnerability(A),
              "local_vulnerability")
         if case.get("W") is not None:
-            _cmp(rec, net, "local_vulnerability",
+            plan.cmp(net, "local_vulnerability",
                  R.local_vulnerability(A, case["W"]),
                  "local_vulnerability_weighted", args=("len",))
-    _cmp(rec, net, "newman_betweenness", R.newman_betweenness(A),
+    plan.cmp(net, "newman_betweenness", R.newman_betweenness(A),
          "newman_betweenness", rtol=1e-8)
-    _cmp(rec, net, "arenas_betweenness", R.arenas_betweenness(A),
+    plan.cmp(net, "arenas_betweenness", R.arenas_betweenness(A),
          "arenas_betweenness", rtol=1e-8)
     if connected and n >= 3 and U.sum():
-        _cmp(rec, net, "eigenvector_centrality",
+        plan.cmp(net, "eigenvector_centrality",
              R.eigenvector_centrality(A), "eigenvector_centrality",
              rtol=EIG_TOL, atol=EIG_TOL)
-        _cmp(rec, net, "msf_synchronizability", R.msf_synchronizability(A),
+        plan.cmp(net, "msf_synchronizability", R.msf_synchronizability(A),
              "msf_synchronizability", rtol=1e-7)
         ok, pr = rec.call("pagerank_raises", net.pagerank)
         if ok:
             pr = np.asarray(pr, dtype=float)
             rec.close(pr / pr.sum(), R.pagerank(U), "pagerank", rtol=1e-6,
                       atol=1e-9)
+    plan.run()
     from pyunicorn.core import Network
     other = Network(adjacency=np.roll(np.roll(A, 1, 0), 1, 1),
                     silence_level=3)
